@@ -279,7 +279,7 @@ class FileHeaderRule(BaseLintRule):  # thailint: ignore[srp]
     ) -> list[Violation]:
         """Filter out violations that should be ignored."""
         file_content = context.file_content or ""
-        lines = file_content.splitlines()
+        lines = file_content.split("\n")
 
         non_ignored = (
             v
